@@ -33,7 +33,7 @@ META = {
         'constructor of the result space type(self.space)(shape, dtype, weighting=) taken by its arguments (cut)',
     ],
     'assumptions': ['A7', 'NumPy calls __array_ufunc__ of the first operand that defines it with the documented (ufunc, method, *inputs, **kwargs) convention'],
-    'not_decided': ['the numbers computed by NumPy itself', 'ProductSpaceElement ufuncs and the legacy x.ufuncs namespace (odl/util/ufuncs.py) beyond their delegation to np.<ufunc>',
+    'not_decided': ['the numbers computed by NumPy itself', 'ProductSpaceElement.__array_ufunc__ / __array_wrap__; the legacy x.ufuncs namespace of tensors (wrap_ufunc_base) and the reductions of ProductSpaceUfuncs - the product-space wrappers wrap_ufunc_productspace are under contract',
                     'DiscretizedSpaceElement: methods outer / reduce result spaces (partition algebra)', 'float precision promotion rules of NumPy'],
 }
 
